@@ -192,6 +192,26 @@ def check(case, ctx):
             if not eq(fmt, got, libref):
                 raise Violation('cli-differs:%s' % name, 'fmt=%s flags=%r lang=%s\ncli=%r\nlib=%r\nsource=%r' % (fmt, case['flags'], LANGS[lang], got[-300:], libref[-300:], src[:300]))
             compared += 1
+        # batch mode with two files in different folders: each file is converted relative to its OWN folder (assets, transclusion base)
+        if not preprocessed and fmt in ('epub', 'odt', 'bundlezip', 'html', 'fodt'):
+            d2 = os.path.join(d, 'other')
+            os.makedirs(d2)
+            f2 = os.path.join(d2, 'second.txt')
+            open(f2, 'wb').write(src.encode('utf-8', 'surrogateescape'))       # same text, but no assets next to it
+            for stale in (bfile,):
+                if os.path.exists(stale):
+                    os.unlink(stale)
+            p4 = subprocess.run(base + ['-b', f, f2], stdout=subprocess.PIPE, stderr=subprocess.PIPE, env=env)
+            lib2 = w.convert(src, fmt, ext, lang, api='sd', directory=d2).out
+            b2 = os.path.join(d2, 'second' + CLI_EXT[fmt])
+            for name, got, want in (('-b first of two', open(bfile, 'rb').read() if os.path.exists(bfile) else None, libref),
+                                    ('-b second of two', open(b2, 'rb').read() if os.path.exists(b2) else None, lib2)):
+                if p4.returncode != 0 or got is None:
+                    raise Violation('cli:batch-two-files', '%s rc=%d %r' % (name, p4.returncode, p4.stderr[-300:]))
+                if not eq(fmt, got, want):
+                    raise Violation('cli-differs:%s' % name.replace(' ', '-'), 'fmt=%s flags=%r: the file converted in batch mode differs from the library conversion relative to its own folder\nsource=%r' % (fmt, case['flags'], src[:300]))
+                compared += 1
+            ctx.cls('cli_batch_two_folders')
         ctx.cls('cli_legs_checked')
     empty = w.convert('', fmt, ext, lang, api='sd').out
     if compared >= 6 and len(outs['sd']) > len(empty):
